@@ -130,6 +130,7 @@ func prepare(state string) *simkube.Store {
 	s.Seed(configMap("cm-present", map[string]string{"set": "one"}))
 	s.Seed(configMap("cm-two-a", map[string]string{"set": "two", "other": "x"}))
 	s.Seed(configMap("cm-two-b", map[string]string{"set": "two"}))
+	s.Seed(configMap("cm-other-only", map[string]string{"other": "x"}))
 	s.Seed(configMap("cm-unlabelled", nil))
 	s.Seed(configMap("cm-chain-0", nil))
 	s.Seed(configMap("cm-chain-2", map[string]string{"set": "chain"}))
